@@ -44,8 +44,9 @@ var lastDesc []string
 // goroutines of the dead process that are still blocked when the bubble ends
 // are not a leak. Reset at the start of every run.
 var ignoreLeak bool
-func (c *Ctx) Fault(kind string)           { c.Faults[kind]++ }
-func (c *Ctx) MixState(x uint64)           { c.StateFP = (c.StateFP ^ x) * 1099511628211 }
+
+func (c *Ctx) Fault(kind string) { c.Faults[kind]++ }
+func (c *Ctx) MixState(x uint64) { c.StateFP = (c.StateFP ^ x) * 1099511628211 }
 func (c *Ctx) Fail(sig, f string, a ...any) {
 	c.R.Fail(sig, fmt.Sprintf(f, a...))
 }
